@@ -98,4 +98,27 @@ void _ZNSt6vectorIcSaIcEEC1ERKS1_(struct vec_char *this, const struct vec_char *
 unsigned long _ZNKSt6vectorIN4bloc5ValueESaIS1_EE4sizeEv(const struct vec_Value *this) { LIVE((void *)this, 24, "std::vector<Value>::size"); return SZ(this); }
 struct Value *_ZNSt6vectorIN4bloc5ValueESaIS1_EE2atEm(struct vec_Value *this, unsigned long n)
 { LIVE(this, 24, "std::vector<Value>::at"); if (n >= SZ(this)) { __throw_out_of_range(); return &g_tab_elem; } return &g_tab_elem; }
+
+/* ---------------- iterators: begin(), it + n, conversion to const_iterator, erase(it) ----------------
+ * an iterator is the index of the element it designates; erase(pos) requires pos to be dereferenceable
+ * (erase(end()) is undefined behaviour) */
+#ifdef ITERATOR_MODEL
+#define ITER_IDX(it) CW(it, 0)
+struct str_iterator _ZNSt7__cxx1112basic_stringIcSt11char_traitsIcESaIcEE5beginEv(struct std_string *this) { struct str_iterator it; LIVE(this, 32, "std::string::begin"); ITER_IDX(&it) = 0; return it; }
+struct vchar_iterator _ZNSt6vectorIcSaIcEE5beginEv(struct vec_char *this) { struct vchar_iterator it; LIVE(this, 24, "std::vector<char>::begin"); ITER_IDX(&it) = 0; return it; }
+struct vval_iterator _ZNSt6vectorIN4bloc5ValueESaIS1_EE5beginEv(struct vec_Value *this) { struct vval_iterator it; LIVE(this, 24, "std::vector<Value>::begin"); ITER_IDX(&it) = 0; return it; }
+struct str_iterator _ZNK9__gnu_cxx17__normal_iteratorIPcNSt7__cxx1112basic_stringIcSt11char_traitsIcESaIcEEEEplEl(const struct str_iterator *this, long n) { struct str_iterator it; ITER_IDX(&it) = ITER_IDX(this) + (unsigned long)n; return it; }
+struct vchar_iterator _ZNK9__gnu_cxx17__normal_iteratorIPcSt6vectorIcSaIcEEEplEl(const struct vchar_iterator *this, long n) { struct vchar_iterator it; ITER_IDX(&it) = ITER_IDX(this) + (unsigned long)n; return it; }
+struct vval_iterator _ZNK9__gnu_cxx17__normal_iteratorIPN4bloc5ValueESt6vectorIS2_SaIS2_EEEplEl(const struct vval_iterator *this, long n) { struct vval_iterator it; ITER_IDX(&it) = ITER_IDX(this) + (unsigned long)n; return it; }
+void _ZN9__gnu_cxx17__normal_iteratorIPKcNSt7__cxx1112basic_stringIcSt11char_traitsIcESaIcEEEEC1IPcvEERKNS0_IT_S8_EE(struct str_citerator *this, const struct str_iterator *o) { ITER_IDX(this) = ITER_IDX(o); }
+void _ZN9__gnu_cxx17__normal_iteratorIPKcSt6vectorIcSaIcEEEC1IPcvEERKNS0_IT_S5_EE(struct vchar_citerator *this, const struct vchar_iterator *o) { ITER_IDX(this) = ITER_IDX(o); }
+void _ZN9__gnu_cxx17__normal_iteratorIPKN4bloc5ValueESt6vectorIS2_SaIS2_EEEC1IPS2_vEERKNS0_IT_S7_EE(struct vval_citerator *this, const struct vval_iterator *o) { ITER_IDX(this) = ITER_IDX(o); }
+struct str_iterator _ZNSt7__cxx1112basic_stringIcSt11char_traitsIcESaIcEE5eraseEN9__gnu_cxx17__normal_iteratorIPKcS4_EE(struct std_string *this, struct str_citerator pos)
+{ struct str_iterator it; LIVE(this, 32, "std::string::erase"); __CPROVER_assert(ITER_IDX(&pos) < SZ(this), "std::string::erase(iterator): the position is dereferenceable (erase(end()) is undefined)"); SZ(this) = SZ(this) - 1; __havoc_str(this); ITER_IDX(&it) = ITER_IDX(&pos); return it; }
+struct vchar_iterator _ZNSt6vectorIcSaIcEE5eraseEN9__gnu_cxx17__normal_iteratorIPKcS1_EE(struct vec_char *this, struct vchar_citerator pos)
+{ struct vchar_iterator it; LIVE(this, 24, "std::vector<char>::erase"); __CPROVER_assert(ITER_IDX(&pos) < SZ(this), "std::vector<char>::erase(iterator): the position is dereferenceable (erase(end()) is undefined)"); SZ(this) = SZ(this) - 1; CW(this, 0) = __g2c_nondet_ulong(); ITER_IDX(&it) = ITER_IDX(&pos); return it; }
+/* Collection::iterator Collection::erase(const_iterator pos) { return v.erase(pos); }  (collection.cpp; contract = std::vector::erase) */
+struct vval_iterator _ZN4bloc10Collection5eraseEN9__gnu_cxx17__normal_iteratorIPKNS_5ValueESt6vectorIS3_SaIS3_EEEE(struct Collection *this, struct vval_citerator pos)
+{ struct vval_iterator it; __CPROVER_assert(ITER_IDX(&pos) < SZ(&this->v), "std::vector<Value>::erase(iterator): the position is dereferenceable (erase(end()) is undefined)"); SZ(&this->v) = SZ(&this->v) - 1; ITER_IDX(&it) = ITER_IDX(&pos); return it; }
+#endif
 #endif
